@@ -228,3 +228,23 @@ def use_mem_fs(files):
   FILES.clear()
   FILES.update(files)
   gin.config.register_file_reader(mem_open, mem_exists)
+
+
+# ---- C17: raising probes -------------------------------------------------------
+RAISE = [None]
+
+
+@gin.configurable(module='vw')
+def boom(z=0):
+  raise RAISE[0]
+
+
+@gin.configurable(module='vw')
+def outer1(z=0):
+  return boom()
+
+
+@gin.configurable(module='vw')
+def outer2(z=0):
+  with gin.config_scope('deep'):
+    return outer1()
